@@ -55,8 +55,13 @@ def formula(tt, n, nm):
     return rec(tt, 0)
 
 
+def written(label):
+    return label if label.isascii() and label.isalnum() else '"%s"' % label
+
+
 def adf_text(tts, nm):
-    return "".join("s(%s)." % x for x in nm) + "".join("ac(%s,%s)." % (nm[s], formula(tts[s], len(tts), nm)) for s in range(len(tts)))
+    w = [written(x) for x in nm]
+    return "".join("s(%s)." % x for x in w) + "".join("ac(%s,%s)." % (w[s], formula(tts[s], len(tts), w)) for s in range(len(tts)))
 
 
 def gamma(tts, v):
